@@ -3,6 +3,7 @@
   Model: the dialer part of Model/Core.lean (delays tracked as the interval [cur, curHi] that the random factor allows).
 -/
 import Model.CoreLemmas
+import Model.CoreDial
 namespace Props.C14
 open Model Model.Core
 
@@ -67,6 +68,35 @@ theorem keeps_trying_after_loss (s : State) (now : Nat) (x : DialerSt) (hget : g
   simp only [Option.map_some, if_true, Option.some.injEq] at hy
   subst hy
   rfl
+
+/-! ### over every history -/
+
+/-- "back off as configured", in every reachable state — any interleaving of Dial calls, attempt results, lost and
+    refused connections, timers and closes: the reconnect delay of every active dialer lies inside the configured
+    window.  With no maximum it is the reconnect time; with a maximum it lies between the smaller and the larger of the
+    reconnect time and the maximum (`cur ≤ curHi` are the ends of the interval the random factor leaves the delay in) -/
+theorem delay_always_within_window (s : State) (hs : Reach s) :
+    ∀ x ∈ s.dialers, x.active = true → lo x ≤ x.cur ∧ x.cur ≤ x.curHi ∧ x.curHi ≤ hi x :=
+  fun x hx => reach_dialOK s hs x hx
+
+/-- "stop when closed", over every continuation of every history: a dialer closed in state s (by Dialer.Close or by
+    closing the socket) is, in every state reachable from s, still closed — so every redial timer that fires later
+    starts no attempt and every later Dial is refused -/
+theorem closed_dialer_never_attempts_again (s : State) (hs : Reach s) (d : Nat) (hc : ClosedAt d s) :
+    ∀ t, ReachFrom s t → ClosedAt d t ∧ (redial t d).2 = [] ∧
+      (∀ now ds call r, Core.natOf ds = d → r ∈ core t now ["dial", ds, call] → ∀ e ∈ r.2, ∀ k, e ≠ CEv.attempt k) := by
+  intro t ht
+  have hcl := closed_stays_closed s hs d hc t ht
+  obtain ⟨x, hx, hxc⟩ := hcl
+  refine ⟨⟨x, hx, hxc⟩, no_attempt_after_close t d x hx hxc, ?_⟩
+  intro now ds call r hn hr e he k
+  simp only [core, hn, hx] at hr
+  split at hr
+  · simp at hr; subst hr; simp at he; subst he; intro h; cases h
+  · simp [hxc] at hr; subst hr; simp at he; subst he; intro h; cases h
+
+example : ∃ x : DialerSt, x.active = true ∧ Core.lo x = 20 ∧ Core.hi x = 60 :=
+  ⟨{ d := 1, asynch := true, active := true, minT := 20, maxT := 60 }, rfl, by decide, by decide⟩
 
 example : (backoff { d := 1, asynch := true, minT := 20, maxT := 60, cur := 20, curHi := 20 }).cur = 22 := by decide
 
